@@ -17,7 +17,7 @@
     [Bad] and change nothing). *)
 From Coq Require Import List NArith ZArith Bool Arith Permutation.
 From BBS Require Import Common.Sx Store.Model Store.Wf Run.RStore Run.R04.
-From BBS Require Import Store.P04Base Store.P04Prim Store.P04Fbs Store.P04Ops Store.P04Step Store.P04Main Store.P04Mon.
+From BBS Require Import Store.P04Base Store.P04Prim Store.P04Fbs Store.P04Ops Store.P04Step Store.P04Main Store.P04Mon Store.P04Extra.
 (* -- (keeps lib/checklib.py's dependency scan from reading past the sentence) *)
 Import ListNotations.
 Local Open Scope nat_scope.
@@ -77,6 +77,16 @@ Theorem release_never_underflows : forall w es, wf_world w = true ->
 Proof. exact release_never_underflows_thm. Qed.
 Print Assumptions release_never_underflows.
 
+(** Exactly once, globally: the pins on block objects (count minus the list's
+    own reference for listed blocks, the whole count for zombies) add up to
+    exactly the references parked operations hold — a reference dropped twice
+    or never would break the equality. *)
+Theorem pins_balance : forall w es, wf_world w = true ->
+  let s := reach w es in
+  pins s = length (all_refs (w_cfg w) (s_threads s)).
+Proof. exact pins_balance_thm. Qed.
+Print Assumptions pins_balance.
+
 (** 2. No reuse while referenced.  On traces: a block object created during
     a step (uid not below the step's initial [s_next_uid]) never occupies the
     region of a block that an operation parked before the step refers to. *)
@@ -133,6 +143,16 @@ Theorem fuel_suffices : forall w es, wf_world w = true ->
   (forall e, out_ok e (snd (step w s e))).
 Proof. exact fuel_suffices_thm. Qed.
 Print Assumptions fuel_suffices.
+
+(** the quarantine loop of findBlockWithSpace stops because
+    totalBlocksReleased has reached totalBlocksToBeReleased, not because its
+    fuel ran out (the other three loops: see [has_space] / [Err] above) *)
+Theorem release_loop_completes : forall w es, wf_world w = true ->
+  let c := w_cfg w in let s := reach w es in
+  let s' := fbs_release c (S (length (s_blocks s))) s in
+  s_released s' = s_tbr s'.
+Proof. exact release_loop_completes_thm. Qed.
+Print Assumptions release_loop_completes.
 
 (** the same for every state satisfying the allocator and counter invariants
     for SOME multiset of references [R] (this covers the intermediate states
